@@ -30,6 +30,7 @@ structure DSt where
   cmds : List Cmd := []
   init : Option (Nat × String) := none
   table : Option (List Tab) := none
+  foreignSeen : Bool := false      -- an unowned hash slot was written in this case: later runs are not predicted
 
 def cfg : Cfg := { slot := 1, owned := [1, 2, 3], legacyDefault := false }
 
@@ -204,6 +205,49 @@ def classify (m i : List String) : String :=
     | _, _ => "viol:batch-not-transparent"
   go m i
 
+/-- the known way to write into a hash slot the slot does not own: an ApplyDelta whose
+    original command is a CreateChannelRuntimeMeta batch (type 59, which has no
+    per-hash-slot filter) carrying an item of another hash slot -/
+def deltaCmd59Foreign (c : Cmd) : Bool :=
+  isApplyDelta c.data &&
+  (match deltaHS c.data, header c.data with
+   | .ok hs, .ok (_, body) =>
+     (match walkTLV body with
+      | .ok fs =>
+        fs.any (fun f => f.1 = 4 &&
+          (match header f.2 with
+           | .ok (59, inner) =>
+             (match walkTLV inner with
+              | .ok items => items.any (fun it =>
+                  match it.2 with
+                  | a :: b :: _ => a.toNat * 256 + b.toNat ≠ hs
+                  | _ => false)
+              | .error _ => false)
+           | _ => false))
+      | .error _ => false)
+   | _, _ => false)
+
+/-- an ApplyDelta naming a hash slot that is neither owned (1-3) nor registered as incoming (4):
+    `resolveHashSlot` accepts it (no ownership / incoming check on the delta path) -/
+def deltaUnregistered (c : Cmd) : Bool :=
+  isApplyDelta c.data &&
+  (match deltaHS c.data with
+   | .ok hs => !([1, 2, 3, 4] : List Nat).contains hs
+   | .error _ => false)
+
+/-- the trailing `U=<index|->` token: did the run write into the unowned hash slot? -/
+def foreignVerdict (cmds : List Cmd) (toks : List String) : List String × Option String :=
+  match toks.getLast? with
+  | some u =>
+    if u.startsWith "U=" then
+      let body := toks.dropLast
+      if u == "U=-" then (body, none)
+      else if cmds.any deltaCmd59Foreign then (body, some "viol:unowned-write:delta-cmd59-unfiltered")
+      else if cmds.any deltaUnregistered then (body, some "viol:unowned-write:delta-to-unregistered-hash-slot")
+      else (body, some "viol:unowned-write")
+    else (toks, some "viol:unparseable-output")
+  | none => (toks, some "viol:unparseable-output")
+
 def c13Step (st : DSt) (op impl : String) : DSt × String × String :=
   match fields op with
   | ["c", i, s, h, d, _] =>
@@ -212,15 +256,22 @@ def c13Step (st : DSt) (op impl : String) : DSt × String × String :=
       ({ st with cmds := st.cmds ++ [{ slot := s, hashSlot := h, index := i, data := d }] }, "ok", "ok")
     | _, _, _, _ => (st, "bad-op", "ok")
   | ["run", plan] =>
-    let toks := fields impl
+    let (toks, fv) := foreignVerdict st.cmds (fields impl)
+    let utok := ((fields impl).getLast?).getD ""
+    if st.foreignSeen then (st, "-", fv.getD "ok") else
     match st.table, st.init with
     | some tab, some (a0, d0) =>
-      let (m, v) := predict tab st.cmds (plan.splitOn ",") { kv := d0, applied := a0 } toks
-      let v := if v ≠ "ok" then v else classify m toks
-      (st, " ".intercalate m, v)
+      match fv with
+      | some v => ({ st with foreignSeen := true }, "-", v)
+      | none =>
+        let (m, v) := predict tab st.cmds (plan.splitOn ",") { kv := d0, applied := a0 } toks
+        let v := if v ≠ "ok" then v else classify m toks
+        (st, " ".intercalate (m ++ [utok]), v)
     | _, _ =>
       let (init, tab, v) := judgeFirst st.cmds toks
-      ({ st with init := init, table := some tab }, "-", v)
+      match fv with
+      | some fvv => ({ st with init := init, table := some tab, foreignSeen := true }, "-", if v ≠ "ok" then v else fvv)
+      | none => ({ st with init := init, table := some tab }, "-", v)
   | _ => (st, "bad-op", "ok")
 
 def main : IO Unit := Drv.main { init := ({} : DSt), step := c13Step }
